@@ -175,6 +175,14 @@ def ob_exclusive(meshname):
     elif meshname == "tet_pair":
         coords, connect = patches.two_element_patch("TETRA4")
         et = "TETRA4"
+    elif meshname == "seg3_chain":
+        # higher-order elements: an element is loaded only when ALL its nodes (vertices and mid nodes) are selected
+        coords = [[F(i, 2), F(0), F(0)] for i in range(7)]
+        connect = [[0, 2, 1], [2, 4, 3], [4, 6, 5]]
+        et = "SEG3"
+    elif meshname in ("tri6_pair", "quad8_pair", "tet10_pair"):
+        et = {"tri6_pair": "TRI6", "quad8_pair": "QUAD8", "tet10_pair": "TETRA10"}[meshname]
+        coords, connect = patches.two_element_patch(et)
     else:
         raise ValueError(meshname)
     co = np.array([[float(x) for x in p] for p in coords])
@@ -183,8 +191,25 @@ def ob_exclusive(meshname):
     g = GroupElemFactory.Create(ElemType[et], np.array(connect), co)
     Nn = co.shape[0]
     n = 0
-    for r in range(1, Nn + 1):
-        for sub in itertools.combinations(range(Nn), r):
+    if Nn <= 17:
+        subsets = (sub for r in range(1, Nn + 1) for sub in itertools.combinations(range(Nn), r))
+    else:
+        # too many subsets for an exhaustive sweep: every subset that misses at most 2 nodes of the group, every subset of at most 2 nodes, and the
+        # vertices-only selections of each element (with and without the rest of the other elements)
+        used = sorted({k for row in connect for k in row})
+        fam = set()
+        for r in (0, 1, 2):
+            for miss in itertools.combinations(used, r):
+                fam.add(tuple(k for k in used if k not in miss))
+            for few in itertools.combinations(range(Nn), r + 1):
+                fam.add(tuple(few))
+        nv = {"SEG3": 2, "TRI6": 3, "QUAD8": 4, "TETRA10": 4}[et]
+        for row in connect:
+            fam.add(tuple(sorted(row[:nv])))
+            fam.add(tuple(sorted(set(row[:nv]) | {k for other in connect if other is not row for k in other})))
+        subsets = (sub for sub in sorted(fam) if sub)
+    for sub in subsets:
+        if True:
             s = set(sub)
             want = sorted(e for e, row in enumerate(connect) if set(row) <= s)
             try:
@@ -374,7 +399,7 @@ def build(tier, seed):
     obs = []
     obs.append(Ob("C09.lemma.resultant", ob_lemma, (), "L", clause="partition of unity => nodal forces of one integration point sum to w f"))
     obs.append(Ob("C09.pointload", ob_pointload, (), "P", (f"{SP}::_Simu.__Bc_pointLoad",), clause="a concentrated load distributes its total over the selected nodes"))
-    for m in (["tri_fan", "seg_chain", "tet_pair"] if tier == "quick" else ["tri_fan", "quad_star", "seg_chain", "tet_pair"]):
+    for m in (["tri_fan", "seg_chain", "tet_pair", "seg3_chain", "tri6_pair", "quad8_pair"] if tier == "quick" else ["tri_fan", "quad_star", "seg_chain", "tet_pair", "seg3_chain", "tri6_pair", "quad8_pair", "tet10_pair"]):
         obs.append(Ob(f"C09.exclusive.{m}", ob_exclusive, (m,), "B", (f"{GP}::_GroupElem.Get_Elements_Nodes",), bound="one small mesh + 3 unused nodes; ALL node subsets",
                       clause="returns exactly the elements all of whose nodes are selected", timeout=900))
     types2 = ["TRI3", "QUAD4", "TRI6", "QUAD8"]
